@@ -207,6 +207,8 @@ def join_sib(ctx, rule="JOIN-SIB"):
                 r = s["rhs"]
                 if r["rv"] == "agg" and (r.get("adt") or "").endswith("ValueRef") and r.get("variant") == "Null" and s["lhs"]["l"] == 0:
                     pad.append(g)
+    if not pad:
+        pad = [t for b, t in f.calls() if (t.get("callee") or "").endswith("iter::repeat_n") and "ValueRef::Null" in S.val(t["args"][0]) and arm_at(b) == "Left"]
     ctx.check(len(pad) == 1, rule, "left join pads with ValueRef::Null per right column", "", "found %d Null-padding closures in Join::exec, expected 1" % len(pad), f.loc(), fn=f.name)
     # prefix pairing: in each arm, the two prefixes are table1.name() for table1.columns() and table2.name() for table2.columns()
     for g, blk in wn:
@@ -244,6 +246,10 @@ def join_shape(ctx, rule="JOIN-SHAPE"):
         maps = [c for c in cs if c[1].endswith("Iterator::map") and arm_of(c[0]) == arm and "Table::columns(" in c[2][0]]
         pref = [c for c in maps if "into_table_and_values" in c[2][1]]
         pad = [c for c in maps if c[2][1] == "agg{}"]
+        # same padding spelled as repeat_n(ValueRef::Null, right.columns().len()): (block, name, [columns expression, ..], term) like a map over the columns
+        for c in cs:
+            if c[1].endswith("iter::repeat_n") and arm_of(c[0]) == arm and "ValueRef::Null" in c[2][0] and "Table::columns(" in c[2][1]:
+                pad.append((c[0], c[1], [c[2][1], "agg{}"], c[3]))
         okp = len(pref) == 2 and all(tid(c[2][0]) == tid(c[2][1]) for c in pref) and sorted(tid(c[2][0]) for c in pref) == sorted([T1, T2])
         ctx.check(okp, rule, "%s: each side's columns are prefixed with its own table name" % arm, "", "Join::%s prefixes columns of table %s with the name of table %s" % (
             arm, [tid(c[2][0]) for c in pref], [tid(c[2][1]) for c in pref]), f.loc(), fn=f.name, key="%s|%s|prefix" % (rule, arm))
